@@ -13,6 +13,7 @@
 # limitations under the License.
 
 
+from copy import copy
 from typing import List
 from typing import Tuple
 
@@ -145,6 +146,8 @@ class PerceptionEvaluationManager(_EvaluationMangerBase):
             object_results (List[DynamicObjectWithPerceptionResult]): Filtered object results list.
             frame_ground_truth (FrameGroundTruth): Filtered FrameGroundTruth instance.
         """
+        # evaluate on a copy: the filtered lists must not be written onto the loaded ground truth frame
+        frame_ground_truth = copy(frame_ground_truth)
         estimated_objects = filter_objects(
             objects=estimated_objects,
             is_gt=False,
